@@ -1,1025 +1,59 @@
-"""Bit-provenance abstract interpreter for loop-free bit plumbing (encoders, lookup_register, constraint
-closures).  Forward, flow-sensitive, join-at-merge.  No path conditions, no solver, nothing executed.
+"""Bit-provenance abstract interpreter for bit plumbing (encoders, lookup_register, constraint closures, and every helper,
+table and module-level constant they are written with).  Forward, flow-sensitive, join-at-merge, interprocedural by
+inlining.  No solver, nothing of the analysed module is imported or executed.
 
-Abstract values
-  int / bool / None / str / list / dict       folded constants
-  Param(p)                                     an encoder parameter nobody has looked at yet
-  View(src, add, shift, trunc)                 ((cur(src) + add) >> shift) [mod 2**trunc]; cur(src) = orig + cell.delta
-  Bits([b0, b1, ...])                          non-negative integer, bit i is 0, 1 or (src, j) = bit j of orig(src)
-  CU32(v)                                      ctypes.c_uint32(v) waiting for .value
-  Closure (facts)                              a constraint closure
+Abstract values (bitcells.py)
+  int / bool / None / str / list / dict        folded constants (tuples are lists)
+  Param(p)                                      an encoder parameter nobody has looked at yet
+  View(src, ch, add, shift, trunc)              ((orig(src) + delta_ch + add) >> shift) [mod 2**trunc]: a pure function of the operand
+  Bits([b0, b1, ...])                           non-negative integer, bit i is 0, 1 or (src, j) = bit j of orig(src)
+  CU32 / ModVal / XorVal                        c_uint32(v), x % k, bits ^ c waiting for their consumer
+  Maybe(view, default)                          TABLE.get(spelling): the table value, or default when the spelling is no key
+  FuncValue, Opaque, TableVal                   module / nested functions, values never looked into, "some entry of TABLE"
 
-The accepted set of an operand is a partition: list of Cell(lo, hi, delta, m, r): originals in [lo, hi] with
-orig % m == r, current value = orig + delta.
+The accepted set of an operand is a partition of its original values into cells (lo, hi, m, r); each cell maps adjustment
+channels to deltas (alias windows, sign extensions and `x - k` on one arm of a branch are piecewise-constant adjustments).
+Values never change under rebinding or aliasing: assignments only bind names.
+
+Modules: bitcells (values, cells, predicates), bitstate (state, module model, join), bitexpr (expressions), bitcall (calls,
+tables, inlining), bitstmt (statements, tests).  This module assembles the interpreter and builds the Summary.
 """
 import ast
-import copy
 
 from .core import AnalysisError
-from .astutil import fold, NotConstant, unparse, dotted
+from .astutil import unparse
 from .facts import Closure
-
-INF = 1 << 200
-
-
-class Unsupported(AnalysisError):
-    pass
-
-
-class Param:
-    def __init__(self, name):
-        self.name = name
-
-    def __eq__(self, o):
-        return isinstance(o, Param) and o.name == self.name
-
-    def __hash__(self):
-        return hash(('Param', self.name))
-
-    def __repr__(self):
-        return 'Param({})'.format(self.name)
+from .bitcells import (Unsupported, Param, View, Bits, CU32, ModVal, Maybe, TableVal, Opaque, FuncValue, TOP, PCell, Cell, Obj,
+                       merge_cells, INF)
+from .bitstate import State, Joiner, model_of, UNIVERSE
+from .bitexpr import ExprMixin
+from .bitcall import CallMixin
+from .bitstmt import StmtMixin
+from .bitobj import ObjMixin
+from .bitlin import LinMixin, Lin
 
 
-class View:
-    __slots__ = ('src', 'add', 'shift', 'trunc')
-
-    def __init__(self, src, add=0, shift=0, trunc=None):
-        self.src, self.add, self.shift, self.trunc = src, add, shift, trunc
-
-    def key(self):
-        return (self.src, self.add, self.shift, self.trunc)
-
-    def __eq__(self, o):
-        return isinstance(o, View) and o.key() == self.key()
-
-    def __hash__(self):
-        return hash(self.key())
-
-    def __repr__(self):
-        return 'View({}, add={}, shift={}, trunc={})'.format(self.src, self.add, self.shift, self.trunc)
-
-
-class Bits:
-    __slots__ = ('bits',)
-
-    def __init__(self, bits):
-        bits = list(bits)
-        while bits and bits[-1] == 0:
-            bits.pop()
-        self.bits = tuple(bits)
-
-    def __eq__(self, o):
-        return isinstance(o, Bits) and o.bits == self.bits
-
-    def __hash__(self):
-        return hash(self.bits)
-
-    def __repr__(self):
-        return 'Bits({})'.format(list(self.bits))
-
-    @staticmethod
-    def of_int(n):
-        if n < 0:
-            raise Unsupported('negative constant used as a bit field: {}'.format(n))
-        return Bits([(n >> i) & 1 for i in range(n.bit_length())])
-
-    def range(self):
-        lo = sum(1 << i for i, b in enumerate(self.bits) if b == 1)
-        hi = sum(1 << i for i, b in enumerate(self.bits) if b != 0)
-        return lo, hi
-
-    def is_const(self):
-        return all(b in (0, 1) for b in self.bits)
-
-    def const(self):
-        return sum(1 << i for i, b in enumerate(self.bits) if b == 1)
-
-
-class CU32:
-    def __init__(self, v):
-        self.v = v
-
-
-class SExt:
-    """signed k-bit truncation of the current value of operand `src` (the idiom (x & (2**(k-1) - 1)) - (x & 2**(k-1)))"""
-
-    def __init__(self, src, k):
-        self.src, self.k = src, k
-
-
-class Cell:
-    __slots__ = ('lo', 'hi', 'delta', 'm', 'r')
-
-    def __init__(self, lo, hi, delta=0, m=1, r=0):
-        self.lo, self.hi, self.delta, self.m, self.r = lo, hi, delta, m, r
-
-    def copy(self):
-        return Cell(self.lo, self.hi, self.delta, self.m, self.r)
-
-    def norm(self):
-        """Tighten bounds to the congruence; return None if empty."""
-        lo, hi = self.lo, self.hi
-        if self.m > 1:
-            if lo > -INF:
-                lo = lo + ((self.r - lo) % self.m)
-            if hi < INF:
-                hi = hi - ((hi - self.r) % self.m)
-        if lo > hi:
-            return None
-        return Cell(lo, hi, self.delta, self.m, self.r)
-
-    def tup(self):
-        return (self.lo, self.hi, self.delta, self.m, self.r)
-
-    def __repr__(self):
-        lo = '-inf' if self.lo <= -INF else self.lo
-        hi = '+inf' if self.hi >= INF else self.hi
-        s = '[{}, {}]'.format(lo, hi)
-        if self.m > 1:
-            s += ' %{}=={}'.format(self.m, self.r)
-        if self.delta:
-            s += ' delta{:+d}'.format(self.delta)
-        return s
-
-
-class State:
-    def __init__(self):
-        self.env = {}
-        self.cells = {}      # src -> [Cell]
-        self.shift = {}      # src -> committed right shift
-        self.imprecise = False
-
-    def clone(self):
-        s = State()
-        s.env = dict(self.env)
-        s.cells = {k: [c.copy() for c in v] for k, v in self.cells.items()}
-        s.shift = dict(self.shift)
-        s.imprecise = self.imprecise
-        return s
-
-
-TOP = object()
-
-
-class Interp:
-    """One interpreter per binding; collects mask events and refusal sites."""
+class Interp(ExprMixin, CallMixin, StmtMixin, ObjMixin, LinMixin, Joiner):
+    """One interpreter per binding; collects mask events, refusal sites and problems."""
 
     def __init__(self, facts):
         self.facts = facts
-        self.masks = []       # (src, node, [mask bits], total shift, cells snapshot, fn name)
-        self.raises = []      # (node, fn name)
-        self.depth = 0
+        self.model = model_of(facts)
+        self.masks = []       # {'src','node','mask','shift','ch','cells','fn'}
+        self.raises = []      # {'node','fn'}   fn = inlining chain
+        self.overlaps = []
+        self.problems = []
+        self.extract = {}     # src -> [channel] through which bits of the operand were taken
         self.fn_stack = []
-
-    # -- operand sources -------------------------------------------------------------------------
-    def as_int_view(self, v, st, node):
-        """Use a value as an integer operand."""
-        if isinstance(v, Param):
-            src = ('imm', v.name)
-            if src not in st.cells:
-                st.cells[src] = [Cell(-INF, INF)]
-                st.shift[src] = 0
-            return View(src)
-        return v
-
-    # -- expression evaluation ---------------------------------------------------------------------
-    def ev(self, node, st):
-        if isinstance(node, ast.Constant):
-            return node.value
-        if isinstance(node, ast.Name):
-            if node.id in st.env:
-                v = st.env[node.id]
-                if v is TOP:
-                    raise Unsupported('variable {!r} has different abstract values on joined paths'.format(node.id))
-                return v
-            if node.id in self.facts.consts:
-                return self.facts.consts[node.id]
-            if node.id in self.facts.closures:
-                return self.facts.closures[node.id]
-            if node.id in ('True', 'False', 'None'):
-                return {'True': True, 'False': False, 'None': None}[node.id]
-            raise Unsupported('unbound name {!r} in {}'.format(node.id, self.fn_stack[-1] if self.fn_stack else '?'))
-        if isinstance(node, (ast.List, ast.Tuple)):
-            return [self.ev(e, st) for e in node.elts]
-        if isinstance(node, ast.UnaryOp):
-            v = self.ev(node.operand, st)
-            if isinstance(v, (int, bool)):
-                return fold(ast.UnaryOp(op=node.op, operand=ast.Constant(value=v)))
-            raise Unsupported('unary {} on abstract value'.format(type(node.op).__name__))
-        if isinstance(node, ast.BoolOp):
-            # only the `cs or []` idiom on folded values
-            vals = [self.ev(e, st) for e in node.values]
-            if all(isinstance(v, (int, bool, list, type(None), str)) for v in vals):
-                if isinstance(node.op, ast.Or):
-                    for v in vals:
-                        if v:
-                            return v
-                    return vals[-1]
-                for v in vals:
-                    if not v:
-                        return v
-                return vals[-1]
-            raise Unsupported('boolean operator on abstract value outside a test')
-        if isinstance(node, ast.BinOp):
-            return self.binop(node, self.ev(node.left, st), self.ev(node.right, st), st)
-        if isinstance(node, ast.IfExp):
-            return self.ifexp(node, st)
-        if isinstance(node, ast.Call):
-            return self.call(node, st)
-        if isinstance(node, ast.Attribute):
-            base = self.ev(node.value, st)
-            if isinstance(base, CU32) and node.attr == 'value':
-                return self.trunc32(base.v, st, node)
-            raise Unsupported('attribute .{} on abstract value'.format(node.attr))
-        if isinstance(node, ast.Subscript):
-            base = self.ev(node.value, st)
-            idx = self.ev(node.slice, st)
-            if isinstance(base, dict) and isinstance(idx, (str, int)):
-                if idx not in base:
-                    raise Unsupported('key {!r} missing in folded dict'.format(idx))
-                return base[idx]
-            raise Unsupported('subscript on abstract value: {}'.format(unparse(node)))
-        if isinstance(node, ast.Compare):
-            raise Unsupported('comparison used as a value: {}'.format(unparse(node)))
-        raise Unsupported('expression form {}: {}'.format(type(node).__name__, unparse(node)))
-
-    def trunc32(self, v, st, node):
-        if isinstance(v, int):
-            return v & 0xffffffff
-        v = self.as_int_view(v, st, node)
-        if isinstance(v, View):
-            if v.trunc is not None:
-                return View(v.src, v.add, v.shift, min(v.trunc, 32))
-            return View(v.src, v.add, v.shift, 32)
-        if isinstance(v, Bits):
-            return Bits(v.bits[:32])
-        raise Unsupported('c_uint32 of {}'.format(v))
-
-    def ifexp(self, node, st):
-        # coercion idiom:  x if type(x) == int else int(x, base=0)
-        t = node.test
-        if (isinstance(t, ast.Compare) and len(t.ops) == 1 and isinstance(t.ops[0], (ast.Eq, ast.Is))
-                and isinstance(t.left, ast.Call) and dotted(t.left.func) == 'type' and len(t.left.args) == 1
-                and isinstance(t.comparators[0], ast.Name) and t.comparators[0].id == 'int'
-                and isinstance(node.body, ast.Name) and isinstance(t.left.args[0], ast.Name)
-                and t.left.args[0].id == node.body.id
-                and isinstance(node.orelse, ast.Call) and dotted(node.orelse.func) == 'int'
-                and node.orelse.args and isinstance(node.orelse.args[0], ast.Name)
-                and node.orelse.args[0].id == node.body.id):
-            base = [kw for kw in node.orelse.keywords if kw.arg == 'base']
-            if len(node.orelse.args) == 1 and base and self.ev(base[0].value, st) == 0:
-                return self.coerce(self.ev(node.body, st), st, node)
-        raise Unsupported('conditional expression outside the integer-coercion idiom: {}'.format(unparse(node)))
-
-    def coerce(self, v, st, node):
-        """int(x, base=0) for strings / identity for ints: the operand's integer value."""
-        if isinstance(v, bool):
-            return v
-        if isinstance(v, int):
-            return v
-        if isinstance(v, str):
-            try:
-                return int(v, 0)
-            except ValueError:
-                return v
-        if isinstance(v, Param):
-            return v
-        if isinstance(v, (View, Bits)):
-            return v
-        raise Unsupported('integer coercion of {}'.format(v))
-
-    # -- binary operators ----------------------------------------------------------------------------
-    def binop(self, node, a, b, st):
-        op = type(node.op)
-        if isinstance(a, (int, bool)) and isinstance(b, (int, bool)):
-            try:
-                return fold(ast.BinOp(left=ast.Constant(value=a), op=node.op, right=ast.Constant(value=b)))
-            except NotConstant as e:
-                raise Unsupported('cannot fold {}: {}'.format(unparse(node), e))
-        a = self.as_int_view(a, st, node)
-        b = self.as_int_view(b, st, node)
-        if op is ast.Sub and isinstance(a, Bits) and isinstance(b, Bits) and a.bits and b.bits:
-            # (x & (2**(k-1) - 1)) - (x & 2**(k-1)): sign extension of the low k bits of one operand
-            k = len(b.bits)
-            top = b.bits[-1]
-            if (isinstance(top, tuple) and top[0] in st.cells and all(x == 0 for x in b.bits[:-1]) and top[1] == k - 1
-                    and len(a.bits) <= k - 1 and all(x == (top[0], j) for j, x in enumerate(a.bits))
-                    and len(a.bits) == k - 1):
-                self.masks = [m for m in self.masks if not (m['src'] == top[0] and m['node'] in (node.left, node.right))]
-                return SExt(top[0], k)
-        if op in (ast.Add, ast.Sub):
-            if isinstance(a, View) and isinstance(b, int) and a.shift == 0 and a.trunc is None:
-                return View(a.src, a.add + (b if op is ast.Add else -b), 0, None)
-            if op is ast.Add and isinstance(b, View) and isinstance(a, int) and b.shift == 0 and b.trunc is None:
-                return View(b.src, b.add + a, 0, None)
-            raise Unsupported('arithmetic {} outside operand +/- constant'.format(unparse(node)))
-        if op is ast.RShift:
-            if not isinstance(b, int) or b < 0:
-                raise Unsupported('shift by abstract amount: {}'.format(unparse(node)))
-            if isinstance(a, View):
-                if a.trunc is not None:
-                    return Bits(self.view_to_bits_trunc(a, st, node).bits[b:])
-                return View(a.src, a.add, a.shift + b, None)
-            if isinstance(a, Bits):
-                return Bits(a.bits[b:])
-        if op is ast.LShift:
-            if isinstance(a, int) and isinstance(b, (View, Bits)):
-                raise Unsupported('constant shifted by abstract amount: {}'.format(unparse(node)))
-            if not isinstance(b, int) or b < 0 or b > 64:
-                raise Unsupported('shift by abstract amount: {}'.format(unparse(node)))
-            ab = self.to_bits(a, st, node)
-            return Bits([0] * b + list(ab.bits))
-        if op is ast.BitAnd:
-            if isinstance(b, (View, Bits)) and isinstance(a, int):
-                a, b = b, a
-            if isinstance(b, int):
-                if b < 0:
-                    raise Unsupported('negative mask: {}'.format(unparse(node)))
-                if isinstance(a, View):
-                    return self.mask_view(a, b, st, node)
-                if isinstance(a, Bits):
-                    return Bits([bit if (b >> i) & 1 else 0 for i, bit in enumerate(a.bits)])
-            raise Unsupported('bit-and of two abstract values: {}'.format(unparse(node)))
-        if op is ast.BitOr:
-            ab, bb = self.to_bits(a, st, node), self.to_bits(b, st, node)
-            n = max(len(ab.bits), len(bb.bits))
-            out = []
-            for i in range(n):
-                x = ab.bits[i] if i < len(ab.bits) else 0
-                y = bb.bits[i] if i < len(bb.bits) else 0
-                if x == 0:
-                    out.append(y)
-                elif y == 0 or x == y:
-                    out.append(x)
-                elif x == 1 or y == 1:
-                    out.append(1)
-                    self.overlaps.append((i, x, y, node))
-                else:
-                    self.overlaps.append((i, x, y, node))
-                    out.append(('overlap', (x, y)))
-            return Bits(out)
-        if op is ast.Mod:
-            return ('mod', a, b)
-        raise Unsupported('operator {} on abstract values: {}'.format(op.__name__, unparse(node)))
-
-    overlaps = None
-
-    def view_range(self, v, st):
-        """Range of a view's current value (needs shift == 0 unless range is shifted monotonically)."""
-        cells = st.cells[v.src]
-        sh = st.shift[v.src] + v.shift
-        lo = min((c.lo + c.delta for c in cells), default=0)
-        hi = max((c.hi + c.delta for c in cells), default=-1)
-        if not cells:
-            return 0, -1
-        if lo <= -INF or hi >= INF:
-            return (-INF if lo <= -INF else (lo + v.add) >> sh), (INF if hi >= INF else (hi + v.add) >> sh)
-        return (lo + v.add) >> sh, (hi + v.add) >> sh
-
-    def bit_source(self, v, st, top_bit, node):
-        """Source whose two's-complement bits 0..top_bit equal those of the view's value before shifting.
-        bit i of (orig + delta + add) == bit i of orig for i <= top_bit when (delta + add) % 2**(top_bit+1) == 0;
-        otherwise, if every cell carries the same adjustment d, the bits are those of the distinct quantity orig + d."""
-        totals = {c.delta + v.add for c in st.cells[v.src]}
-        if all(t % (1 << (top_bit + 1)) == 0 for t in totals):
-            return v.src
-        if len(totals) == 1:
-            d = totals.pop()
-            return (v.src[0], '{}{:+d}'.format(v.src[1], d))
-        raise Unsupported('bits of an operand taken after differing non-aligned adjustments {} at {}'.format(
-            sorted(totals), unparse(node)))
-
-    def mask_view(self, v, mask, st, node):
-        sh = st.shift[v.src] + v.shift
-        nbits = mask.bit_length()
-        if v.trunc is not None:
-            mask &= (1 << v.trunc) - 1
-            nbits = mask.bit_length()
-        src = self.bit_source(v, st, nbits - 1 + sh, node) if nbits else v.src
-        bits = [((src, i + sh) if (mask >> i) & 1 else 0) for i in range(nbits)]
-        self.masks.append({'src': v.src, 'node': node, 'mask': mask, 'shift': sh,
-                           'cells': [c.copy() for c in st.cells[v.src]],
-                           'fn': self.fn_stack[-1] if self.fn_stack else '?'})
-        return Bits(bits)
-
-    def view_to_bits_trunc(self, v, st, node):
-        return self.mask_view(View(v.src, v.add, v.shift, None), (1 << v.trunc) - 1, st, node)
-
-    def to_bits(self, v, st, node):
-        if isinstance(v, bool):
-            v = int(v)
-        if isinstance(v, int):
-            return Bits.of_int(v)
-        if isinstance(v, Bits):
-            return v
-        v = self.as_int_view(v, st, node)
-        if isinstance(v, View):
-            if v.trunc is not None:
-                return self.view_to_bits_trunc(v, st, node)
-            lo, hi = self.view_range(v, st)
-            if hi < lo:
-                return Bits([])
-            if lo < 0 or hi >= INF:
-                raise Unsupported('operand with range [{}, {}] placed into a bit field without a mask: {}'.format(
-                    '-inf' if lo <= -INF else lo, '+inf' if hi >= INF else hi, unparse(node)))
-            w = hi.bit_length()
-            sh = st.shift[v.src] + v.shift
-            src = self.bit_source(v, st, w - 1 + sh, node) if w else v.src
-            return Bits([(src, i + sh) for i in range(w)])
-        raise Unsupported('value {} used as bits at {}'.format(v, unparse(node)))
-
-    # -- calls -------------------------------------------------------------------------------------------
-    def call(self, node, st):
-        fn = dotted(node.func)
-        if fn in ('c_uint32', 'ctypes.c_uint32'):
-            return CU32(self.ev(node.args[0], st))
-        if fn == 'int':
-            base = [kw for kw in node.keywords if kw.arg == 'base']
-            if len(node.args) == 1 and base and self.ev(base[0].value, st) == 0:
-                return self.coerce(self.ev(node.args[0], st), st, node)
-            raise Unsupported('int() call outside the base=0 coercion idiom: {}'.format(unparse(node)))
-        if isinstance(node.func, ast.Name) and node.func.id in st.env:
-            target = st.env[node.func.id]
-            if isinstance(target, Closure):
-                return self.call_closure(target, node, st)
-            raise Unsupported('call of local value {}'.format(node.func.id))
-        if isinstance(node.func, ast.Name) and node.func.id in self.facts.funcs:
-            fdef = self.facts.funcs[node.func.id]
-            args = [self.ev(a, st) for a in node.args]
-            kwargs = {}
-            for kw in node.keywords:
-                if kw.arg is None:
-                    raise Unsupported('**kwargs in call {}'.format(unparse(node)))
-                kwargs[kw.arg] = self.ev(kw.value, st)
-            return self.run_function(fdef, args, kwargs, st)
-        raise Unsupported('call of {} ({})'.format(fn, unparse(node)))
-
-    def call_closure(self, clo, node, st):
-        fac = self.facts.funcs.get(clo.factory)
-        if fac is None:
-            raise Unsupported('unknown closure factory {}'.format(clo.factory))
-        inner = None
-        ret = None
-        for s in fac.body:
-            if isinstance(s, ast.FunctionDef):
-                inner = s
-            elif isinstance(s, ast.Return):
-                ret = s
-        if inner is None or ret is None or not isinstance(ret.value, ast.Name) or ret.value.id != inner.name:
-            raise Unsupported('closure factory {} is not of the form def inner…; return inner'.format(clo.factory))
-        cenv = {}
-        params = [a.arg for a in fac.args.args]
-        if len(params) != len(clo.args):
-            raise Unsupported('closure factory {} arity'.format(clo.factory))
-        cenv.update(zip(params, clo.args))
-        kwargs = {}
-        for kw in node.keywords:
-            if kw.arg is None:
-                raise Unsupported('**kwargs when calling constraint')
-            kwargs[kw.arg] = self.ev(kw.value, st)
-        if node.args:
-            raise Unsupported('positional arguments when calling constraint')
-        return self.run_function(inner, [], kwargs, st, closure_env=cenv, label='{}<{}>'.format(clo.factory, ','.join(map(str, clo.args))))
-
-    def run_function(self, fdef, args, kwargs, st, closure_env=None, label=None):
-        """Inline a repo function: same State object flows through (operand cells are shared)."""
-        self.depth += 1
-        if self.depth > 6:
-            raise Unsupported('inlining depth exceeded at {}'.format(fdef.name))
-        a = fdef.args
-        saved_env = st.env
-        env = dict(closure_env or {})
-        pos = [p.arg for p in a.args]
-        if len(args) > len(pos):
-            raise Unsupported('too many positional arguments for {}'.format(fdef.name))
-        for p, v in zip(pos, args):
-            env[p] = v
-        defaults = dict(zip(pos[len(pos) - len(a.defaults):], a.defaults))
-        kwonly = [p.arg for p in a.kwonlyargs]
-        kwdefaults = {p: d for p, d in zip(kwonly, a.kw_defaults) if d is not None}
-        extra = {}
-        for k, v in kwargs.items():
-            if k in pos or k in kwonly:
-                if k in env and k in pos[:len(args)]:
-                    raise Unsupported('{}() got multiple values for {}'.format(fdef.name, k))
-                env[k] = v
-            elif a.kwarg:
-                extra[k] = v
-            else:
-                raise Unsupported('{}() got unexpected keyword {}'.format(fdef.name, k))
-        if a.kwarg:
-            env[a.kwarg.arg] = extra
-        for p in pos + kwonly:
-            if p not in env:
-                d = defaults.get(p, kwdefaults.get(p))
-                if d is None:
-                    raise Unsupported('{}() missing argument {}'.format(fdef.name, p))
-                env[p] = fold(d, self.facts.consts)
-        st.env = env
-        self.fn_stack.append(label or fdef.name)
-        result = self.exec_block(fdef.body, st, top=True)
-        self.fn_stack.pop()
-        self.depth -= 1
-        new_state, retval = result
-        if new_state is None:
-            # every path raised: the caller's state is dead
-            st.dead = True
-            st.env = saved_env
-            return None
-        # copy back shared parts
-        st.cells, st.shift, st.imprecise = new_state.cells, new_state.shift, new_state.imprecise
-        st.env = saved_env
-        return retval
-
-    # -- statements ----------------------------------------------------------------------------------------
-    def exec_block(self, body, st, top=False):
-        """Returns (state or None, return value).  `return` only as the last top-level statement."""
-        retval = None
-        for i, s in enumerate(body):
-            if getattr(st, 'dead', False):
-                return None, None
-            if isinstance(s, ast.Return):
-                if not top or i != len(body) - 1:
-                    raise Unsupported('early return in {}'.format(self.fn_stack[-1]))
-                retval = self.ev(s.value, st) if s.value is not None else None
-                if getattr(st, 'dead', False):
-                    return None, None
-                return st, retval
-            st = self.exec_stmt(s, st)
-            if st is None:
-                return None, None
-        return st, retval
-
-    def exec_stmt(self, s, st):
-        if isinstance(s, ast.Expr):
-            if isinstance(s.value, ast.Constant):
-                return st
-            self.ev(s.value, st)
-            return None if getattr(st, 'dead', False) else st
-        if isinstance(s, ast.Assign):
-            if len(s.targets) != 1 or not isinstance(s.targets[0], ast.Name):
-                raise Unsupported('assignment form {}'.format(unparse(s)))
-            v = self.ev(s.value, st)
-            if getattr(st, 'dead', False):
-                return None
-            self.assign(s.targets[0].id, v, st, s)
-            return st
-        if isinstance(s, ast.AugAssign):
-            if not isinstance(s.target, ast.Name):
-                raise Unsupported('augmented assignment form {}'.format(unparse(s)))
-            cur = self.ev(ast.Name(id=s.target.id, ctx=ast.Load()), st)
-            fake = ast.BinOp(left=s.target, op=s.op, right=s.value)
-            ast.copy_location(fake, s)
-            v = self.binop(fake, cur, self.ev(s.value, st), st)
-            self.assign(s.target.id, v, st, s)
-            return st
-        if isinstance(s, ast.Raise):
-            self.raises.append({'node': s, 'fn': self.fn_stack[-1]})
-            return None
-        if isinstance(s, ast.If):
-            t, f = self.split(s.test, st)
-            outs = []
-            if t is not None:
-                r, _ = self.exec_block(s.body, t)
-                if r is not None:
-                    outs.append(r)
-            if f is not None:
-                r, _ = self.exec_block(s.orelse, f) if s.orelse else (f, None)
-                if r is not None:
-                    outs.append(r)
-            if not outs:
-                return None
-            if len(outs) == 1:
-                return outs[0]
-            return self.join(outs[0], outs[1])
-        if isinstance(s, ast.For):
-            it = self.ev(s.iter, st)
-            if not isinstance(it, list) or not isinstance(s.target, ast.Name) or s.orelse:
-                raise Unsupported('loop outside `for c in <literal list>`: {}'.format(unparse(s).split('\n')[0]))
-            for elem in it:
-                st.env[s.target.id] = elem
-                r, _ = self.exec_block(s.body, st)
-                if r is None:
-                    return None
-                st = r
-            return st
-        if isinstance(s, ast.Try):
-            return self.exec_try(s, st)
-        if isinstance(s, ast.Pass):
-            return st
-        raise Unsupported('statement form {}: {}'.format(type(s).__name__, unparse(s).split('\n')[0]))
-
-    def commit_sext(self, v, st, node):
-        """current := signed k-bit truncation of current, cell by cell (each 2**k period becomes its own cell)."""
-        if st.shift[v.src]:
-            raise Unsupported('sign extension after a shift at {}'.format(unparse(node)))
-        P = 1 << v.k
-        half = P >> 1
-        out = []
-        for c in st.cells[v.src]:
-            lo_c = c.lo + c.delta if c.lo > -INF else None
-            hi_c = c.hi + c.delta if c.hi < INF else None
-            if lo_c is None and hi_c is None:
-                n_lo, n_hi = -2, 2
-            elif lo_c is None:
-                n_hi = (hi_c + half) // P
-                n_lo = n_hi - 3
-            elif hi_c is None:
-                n_lo = (lo_c + half) // P
-                n_hi = n_lo + 3
-            else:
-                n_lo, n_hi = (lo_c + half) // P, (hi_c + half) // P
-                if n_hi - n_lo > 64:
-                    n_hi = n_lo + 64
-                    st.imprecise = True
-            if lo_c is None or hi_c is None:
-                st.imprecise = True          # further periods exist; the enumerated ones are exact
-            for n in range(n_lo, n_hi + 1):
-                seg_lo = n * P - half - c.delta
-                seg_hi = n * P + half - 1 - c.delta
-                nc = Cell(max(c.lo, seg_lo), min(c.hi, seg_hi), c.delta - n * P, c.m, c.r)
-                if nc.lo <= nc.hi:
-                    out.append(nc)
-        st.cells[v.src] = [x for x in (y.norm() for y in out) if x is not None]
-
-    def assign(self, name, v, st, node):
-        if isinstance(v, SExt):
-            for other, ov in st.env.items():
-                if other != name and isinstance(ov, View) and ov.src == v.src:
-                    raise Unsupported('operand {} sign-extended while aliased by {!r}'.format(v.src, other))
-            self.commit_sext(v, st, node)
-            st.env[name] = View(v.src)
-            return
-        if isinstance(v, View) and (v.add != 0 or v.shift != 0) and v.trunc is None:
-            # commit the adjustment to the operand's cells; refuse if another live alias would go stale
-            for other, ov in st.env.items():
-                if other != name and isinstance(ov, View) and ov.src == v.src:
-                    raise Unsupported('operand {} adjusted while aliased by {!r}'.format(v.src, other))
-            if v.add:
-                if st.shift[v.src]:
-                    raise Unsupported('additive adjustment after a shift at {}'.format(unparse(node)))
-                for c in st.cells[v.src]:
-                    c.delta += v.add
-            st.shift[v.src] += v.shift
-            v = View(v.src)
-        st.env[name] = v
-
-    def exec_try(self, s, st):
-        # idiom 1: try: x = int(x, base=0) / except: pass       -> coercion
-        # idiom 2: try: x = TABLE[x] / except KeyError: raise   -> table lookup
-        if len(s.body) == 1 and isinstance(s.body[0], ast.Assign) and len(s.handlers) == 1 and not s.orelse and not s.finalbody:
-            a = s.body[0]
-            h = s.handlers[0]
-            if (isinstance(a.value, ast.Call) and dotted(a.value.func) == 'int' and len(h.body) == 1
-                    and isinstance(h.body[0], ast.Pass) and isinstance(a.targets[0], ast.Name)
-                    and a.value.args and isinstance(a.value.args[0], ast.Name) and a.value.args[0].id == a.targets[0].id):
-                v = self.ev(a.value, st)
-                st.env[a.targets[0].id] = v
-                return st
-            if (isinstance(a.value, ast.Subscript) and isinstance(a.value.value, ast.Name)
-                    and a.value.value.id in self.facts.tables and isinstance(a.targets[0], ast.Name)
-                    and len(h.body) == 1 and isinstance(h.body[0], ast.Raise)
-                    and h.type is not None and dotted(h.type) in ('KeyError', 'LookupError', 'Exception')):
-                table = self.facts.tables[a.value.value.id]
-                key = self.ev(a.value.slice, st)
-                self.raises.append({'node': h.body[0], 'fn': self.fn_stack[-1]})
-                if isinstance(key, Param):
-                    vals = sorted(set(table.values()))
-                    if not vals or not all(isinstance(x, int) for x in vals):
-                        raise Unsupported('register table values are not integers')
-                    src = ('reg', key.name)
-                    cells = []
-                    start = prev = vals[0]
-                    for x in vals[1:]:
-                        if x != prev + 1:
-                            cells.append(Cell(start, prev))
-                            start = x
-                        prev = x
-                    cells.append(Cell(start, prev))
-                    st.cells[src] = cells
-                    st.shift[src] = 0
-                    self.reg_tables = getattr(self, 'reg_tables', set()) | {a.value.value.id}
-                    st.env[a.targets[0].id] = View(src)
-                    return st
-                if isinstance(key, (int, str)) and not isinstance(key, bool):
-                    if key not in table:
-                        return None      # always refused
-                    st.env[a.targets[0].id] = table[key]
-                    return st
-                raise Unsupported('table lookup with key {}'.format(key))
-        raise Unsupported('try statement outside the coercion / table-lookup idioms in {}'.format(self.fn_stack[-1]))
-
-    # -- joins -----------------------------------------------------------------------------------------------
-    def join(self, a, b):
-        out = State()
-        out.imprecise = a.imprecise or b.imprecise
-        for k in set(a.env) | set(b.env):
-            va, vb = a.env.get(k, TOP), b.env.get(k, TOP)
-            if isinstance(va, Param) and ('imm', va.name) in a.cells:
-                va = View(('imm', va.name))
-            if isinstance(vb, Param) and ('imm', vb.name) in b.cells:
-                vb = View(('imm', vb.name))
-            same = False
-            try:
-                same = (va is vb) or (type(va) == type(vb) and va == vb)
-            except Exception:
-                same = False
-            out.env[k] = va if same else TOP
-        for src in set(a.cells) | set(b.cells):
-            if src not in a.cells or src not in b.cells:
-                raise Unsupported('operand {} interpreted on one branch only'.format(src))
-            if a.shift[src] != b.shift[src]:
-                raise Unsupported('operand {} shifted on one branch only'.format(src))
-            out.shift[src] = a.shift[src]
-            seen = {}
-            for c in a.cells[src] + b.cells[src]:
-                seen.setdefault(c.tup(), c)
-            out.cells[src] = merge_cells(list(seen.values()))
-        return out
-
-    # -- refinement by tests -----------------------------------------------------------------------------------
-    def split(self, test, st):
-        """(state where test holds | None, state where it does not | None)."""
-        kind, payload = self.cond(test, st)
-        if kind == 'const':
-            return (st, None) if payload else (None, st)
-        src, pred = payload
-        t, f = st.clone(), st.clone()
-        tc, fc = [], []
-        for c in st.cells[src]:
-            yes, no, exact = pred(c)
-            tc.extend(yes)
-            fc.extend(no)
-            if not exact:
-                t.imprecise = True
-                f.imprecise = True
-        t.cells[src] = [c for c in (x.norm() for x in tc) if c is not None]
-        f.cells[src] = [c for c in (x.norm() for x in fc) if c is not None]
-        return (t if t.cells[src] else None), (f if f.cells[src] else None)
-
-    def cond(self, test, st):
-        """('const', bool) or ('pred', (src, cell -> (true cells, false cells, exact)))."""
-        if isinstance(test, ast.BoolOp):
-            parts = [self.cond(v, st) for v in test.values]
-            is_and = isinstance(test.op, ast.And)
-            preds = []
-            for k, p in parts:
-                if k == 'const':
-                    if bool(p) != is_and:
-                        return 'const', (not is_and)
-                else:
-                    preds.append(p)
-            if not preds:
-                return 'const', is_and
-            srcs = {p[0] for p in preds}
-            if len(srcs) != 1:
-                raise Unsupported('one test constrains several operands: {}'.format(unparse(test)))
-            src = preds[0][0]
-
-            def pred(cell, preds=preds, is_and=is_and):
-                if is_and:
-                    yes, no, exact = [cell], [], True
-                    for _, p in preds:
-                        ny = []
-                        for c in yes:
-                            y, n, e = p(c)
-                            ny.extend(y)
-                            no.extend(n)
-                            exact = exact and e
-                        yes = ny
-                    return yes, no, exact
-                yes, no, exact = [], [cell], True
-                for _, p in preds:
-                    nn = []
-                    for c in no:
-                        y, n, e = p(c)
-                        yes.extend(y)
-                        nn.extend(n)
-                        exact = exact and e
-                    no = nn
-                return yes, no, exact
-            return 'pred', (src, pred)
-        if isinstance(test, ast.UnaryOp) and isinstance(test.op, ast.Not):
-            k, p = self.cond(test.operand, st)
-            if k == 'const':
-                return 'const', not p
-            src, pr = p
-
-            def pred(cell, pr=pr):
-                y, n, e = pr(cell)
-                return n, y, e
-            return 'pred', (src, pred)
-        if isinstance(test, ast.Compare):
-            if len(test.ops) == 2 and all(isinstance(o, (ast.Lt, ast.LtE, ast.Gt, ast.GtE)) for o in test.ops):
-                # a <= x <= b  ==  a <= x and x <= b
-                first = ast.Compare(left=test.left, ops=[test.ops[0]], comparators=[test.comparators[0]])
-                second = ast.Compare(left=test.comparators[0], ops=[test.ops[1]], comparators=[test.comparators[1]])
-                both = ast.BoolOp(op=ast.And(), values=[first, second])
-                return self.cond(ast.copy_location(both, test), st)
-            if len(test.ops) != 1:
-                raise Unsupported('chained comparison {}'.format(unparse(test)))
-            op = test.ops[0]
-            a = self.ev(test.left, st)
-            b = self.ev(test.comparators[0], st)
-            return self.compare(a, op, b, st, test)
-        v = self.ev(test, st)
-        if isinstance(v, (int, bool, str, list, type(None))):
-            return 'const', bool(v)
-        raise Unsupported('truth value of abstract {}'.format(unparse(test)))
-
-    def compare(self, a, op, b, st, node):
-        consts = (int, bool, str, type(None))
-        if isinstance(a, consts) and isinstance(b, consts + (list,)):
-            table = {ast.Lt: lambda: a < b, ast.LtE: lambda: a <= b, ast.Gt: lambda: a > b, ast.GtE: lambda: a >= b,
-                     ast.Eq: lambda: a == b, ast.NotEq: lambda: a != b, ast.In: lambda: a in b,
-                     ast.NotIn: lambda: a not in b, ast.Is: lambda: a is b, ast.IsNot: lambda: a is not b}
-            try:
-                return 'const', bool(table[type(op)]())
-            except (KeyError, TypeError) as e:
-                raise Unsupported('cannot fold comparison {}: {}'.format(unparse(node), e))
-        # normalise: abstract on the left
-        if isinstance(a, (int, bool)) and not isinstance(b, (int, bool, list)):
-            flip = {ast.Lt: ast.Gt, ast.LtE: ast.GtE, ast.Gt: ast.Lt, ast.GtE: ast.LtE, ast.Eq: ast.Eq, ast.NotEq: ast.NotEq}
-            if type(op) not in flip:
-                raise Unsupported('comparison {}'.format(unparse(node)))
-            a, b, op = b, a, flip[type(op)]()
-        if isinstance(a, tuple) and a and a[0] == 'mod':
-            return self.compare_mod(a, op, b, st, node)
-        a = self.as_int_view(a, st, node)
-        if isinstance(a, Bits):
-            if a.is_const():
-                return self.compare(a.const(), op, b, st, node)
-            if isinstance(b, (int, bool)):
-                lo, hi = a.range()
-                dec = decide_range(lo, hi, op, b)
-                if dec is not None:
-                    return 'const', dec
-            if (isinstance(op, (ast.Eq, ast.NotEq)) and isinstance(b, int) and b == 0):
-                srcs = {x[0] for x in a.bits if isinstance(x, tuple)}
-                if len(srcs) == 1 and all(x == 0 or isinstance(x, tuple) for x in a.bits):
-                    # (operand & single-bit-mask) compared with 0
-                    positions = [x[1] for x in a.bits if isinstance(x, tuple)]
-                    src = srcs.pop()
-                    if len(positions) == 1:
-                        want_zero = isinstance(op, ast.Eq)
-                        return 'pred', (src, bit_pred(positions[0], want_zero, st))
-            srcs = {x[0] for x in a.bits if isinstance(x, tuple)}
-            srcs = {x for x in srcs if x in st.cells}
-            if len(srcs) == 1 and isinstance(b, (int, bool)):
-                # outcome depends on operand bits already extracted: both outcomes stay possible for every accepted
-                # value (sound over-approximation of the accepted set); the state is marked imprecise
-                return 'pred', (srcs.pop(), lambda cell: ([cell.copy()], [cell.copy()], False))
-            raise Unsupported('comparison of a bit field with undecidable outcome: {}'.format(unparse(node)))
-        if not isinstance(a, View):
-            raise Unsupported('comparison {}'.format(unparse(node)))
-        if a.shift or st.shift[a.src] or a.trunc is not None:
-            raise Unsupported('comparison after shift/truncation: {}'.format(unparse(node)))
-        if isinstance(op, (ast.In, ast.NotIn)):
-            if not isinstance(b, list) or not all(isinstance(x, (int, bool)) for x in b):
-                raise Unsupported('membership in non-literal list: {}'.format(unparse(node)))
-            pts = sorted(set(int(x) for x in b))
-            return 'pred', (a.src, points_pred(pts, a.add, isinstance(op, ast.In)))
-        if not isinstance(b, (int, bool)):
-            raise Unsupported('comparison between two abstract values: {}'.format(unparse(node)))
-        b = int(b)
-        return 'pred', (a.src, cmp_pred(type(op), b, a.add, node))
-
-    def compare_mod(self, a, op, b, st, node):
-        _, x, k = a
-        x = self.as_int_view(x, st, node)
-        if not (isinstance(x, View) and isinstance(k, int) and k > 0 and isinstance(b, int) and 0 <= b < k
-                and isinstance(op, (ast.Eq, ast.NotEq))):
-            raise Unsupported('modulo test form {}'.format(unparse(node)))
-        if x.shift or st.shift[x.src] or x.trunc is not None:
-            raise Unsupported('modulo test after shift: {}'.format(unparse(node)))
-        return 'pred', (x.src, mod_pred(k, b, x.add, isinstance(op, ast.Eq)))
-
-
-def decide_range(lo, hi, op, b):
-    t = type(op)
-    if t is ast.Lt:
-        return True if hi < b else (False if lo >= b else None)
-    if t is ast.LtE:
-        return True if hi <= b else (False if lo > b else None)
-    if t is ast.Gt:
-        return True if lo > b else (False if hi <= b else None)
-    if t is ast.GtE:
-        return True if lo >= b else (False if hi < b else None)
-    if t is ast.Eq:
-        return False if (b < lo or b > hi) else (True if lo == hi == b else None)
-    if t is ast.NotEq:
-        return True if (b < lo or b > hi) else (False if lo == hi == b else None)
-    return None
-
-
-def sub(cell, lo, hi):
-    c = Cell(max(cell.lo, lo), min(cell.hi, hi), cell.delta, cell.m, cell.r)
-    return [c] if c.lo <= c.hi else []
-
-
-def cmp_pred(opt, b, add, node):
-    def pred(cell):
-        # current = orig + delta + add ;  current OP b
-        t = b - cell.delta - add        # orig OP t
-        if opt is ast.Lt:
-            return sub(cell, -INF, t - 1), sub(cell, t, INF), True
-        if opt is ast.LtE:
-            return sub(cell, -INF, t), sub(cell, t + 1, INF), True
-        if opt is ast.Gt:
-            return sub(cell, t + 1, INF), sub(cell, -INF, t), True
-        if opt is ast.GtE:
-            return sub(cell, t, INF), sub(cell, -INF, t - 1), True
-        if opt is ast.Eq:
-            return sub(cell, t, t), sub(cell, -INF, t - 1) + sub(cell, t + 1, INF), True
-        if opt is ast.NotEq:
-            return sub(cell, -INF, t - 1) + sub(cell, t + 1, INF), sub(cell, t, t), True
-        raise Unsupported('comparison operator {} at {}'.format(opt.__name__, unparse(node)))
-    return pred
-
-
-def points_pred(pts, add, positive):
-    def pred(cell):
-        inside, outside = [], []
-        cur = cell.lo
-        for p in pts:
-            t = p - cell.delta - add
-            if t < cell.lo or t > cell.hi:
-                continue
-            inside.extend(sub(cell, t, t))
-            outside.extend(sub(cell, cur, t - 1))
-            cur = t + 1
-        outside.extend(sub(cell, cur, cell.hi))
-        return (inside, outside, True) if positive else (outside, inside, True)
-    return pred
-
-
-def mod_pred(k, b, add, positive):
-    def pred(cell):
-        # (orig + delta + add) % k == b   <=>   orig % k == (b - delta - add) % k
-        r = (b - cell.delta - add) % k
-        if cell.m == 1:
-            eq = [Cell(cell.lo, cell.hi, cell.delta, k, r)]
-        elif cell.m % k == 0:
-            eq = [cell.copy()] if cell.r % k == r else []
-        elif k % cell.m == 0:
-            eq = [Cell(cell.lo, cell.hi, cell.delta, k, r)] if r % cell.m == cell.r else []
-        else:
-            raise Unsupported('combination of congruences mod {} and mod {}'.format(cell.m, k))
-        # complement
-        exact = True
-        if cell.m == 1 and k == 2:
-            ne = [Cell(cell.lo, cell.hi, cell.delta, 2, 1 - r)]
-        elif cell.m == 1:
-            ne = [Cell(cell.lo, cell.hi, cell.delta, k, rr) for rr in range(k) if rr != r] if k <= 64 else [cell.copy()]
-            exact = k <= 64
-        else:
-            if eq and eq[0].tup() == cell.tup():
-                ne = []
-            elif not eq:
-                ne = [cell.copy()]
-            else:
-                ratio = k // cell.m
-                if ratio <= 64:
-                    ne = [Cell(cell.lo, cell.hi, cell.delta, k, rr) for rr in range(cell.r, k, cell.m) if rr != r]
-                else:
-                    ne, exact = [cell.copy()], False
-        return (eq, ne, exact) if positive else (ne, eq, exact)
-    return pred
-
-
-def bit_pred(bit, want_zero, st):
-    def pred(cell):
-        if cell.lo <= -INF or cell.hi >= INF:
-            raise Unsupported('bit test on an unbounded operand')
-        period = 1 << (bit + 1)
-        half = 1 << bit
-        if (cell.hi - cell.lo) // period > 4096:
-            raise Unsupported('bit test over too wide an operand range')
-        if cell.delta % period != 0:
-            raise Unsupported('bit test after a non-aligned adjustment')
-        zero, one = [], []
-        base = (cell.lo // period) * period
-        while base <= cell.hi:
-            zero.extend(sub(cell, base, base + half - 1))
-            one.extend(sub(cell, base + half, base + period - 1))
-            base += period
-        return (zero, one, True) if want_zero else (one, zero, True)
-    return pred
-
-
-def merge_cells(cells):
-    cells = [c for c in (x.norm() for x in cells) if c is not None]
-    cells.sort(key=lambda c: (c.delta, c.m, c.r, c.lo))
-    out = []
-    for c in cells:
-        if out:
-            p = out[-1]
-            if (p.delta, p.m, p.r) == (c.delta, c.m, c.r) and c.lo <= p.hi + p.m:
-                p.hi = max(p.hi, c.hi)
-                continue
-        out.append(c.copy())
-    out.sort(key=lambda c: c.lo)
-    return out
+        self.def_stack = []
+        self.rets = []
+        self.nch = 0
+        self.nfork = 0
+        self.reg_tables = set()
+        self.src_table = {}
+        self.notes = set()
+        self.coerced = set()            # parameters that went through int(x, base=0)
+        self.lookup_normalised = {}     # register parameter -> was it converted before its first table lookup
 
 
 # ---------------------------------------------------------------------------------------------------------------
@@ -1030,18 +64,45 @@ class Summary:
         self.name = name
         self.encoder = encoder
         self.params = params              # positional parameters still open, in order
-        self.operands = {}                # param -> {'kind', 'src', 'cells', 'shift'}
-        for src, cells in (state.cells.items() if state is not None else []):
-            kind, p = src
-            self.operands.setdefault(p, []).append({'kind': kind, 'src': src, 'cells': merge_cells(cells),
-                                                    'shift': state.shift[src]})
+        self.operands = {}                # param -> [{'kind', 'src', 'cells', 'shift'}]
         self.always_refused = state is None
-        self.bits = result.bits if isinstance(result, Bits) else (Bits.of_int(result).bits if isinstance(result, int) else None)
         self.result = result
+        if isinstance(result, bool):
+            result = int(result)
+        self.bits = result.bits if isinstance(result, Bits) else (Bits.of_int(result).bits if isinstance(result, int) and result >= 0 else None)
         self.masks = interp.masks
         self.raises = interp.raises
         self.overlaps = interp.overlaps
-        self.imprecise = state.imprecise if state is not None else False
+        self.problems = list(interp.problems)
+        self.notes = sorted(interp.notes)
+        self.lookup_normalised = dict(interp.lookup_normalised)
+        self.imprecise = (state.imprecise or state.forks != UNIVERSE) if state is not None else False
+        top = {}
+        for b in (self.bits or ()):
+            if isinstance(b, tuple) and b[0] != 'overlap':
+                top[b[0]] = max(top.get(b[0], -1), b[1])
+        if state is not None:
+            for src, pcells in state.cells.items():
+                kind, p = src
+                if state.lookup.get(src, 'hit') != 'hit' and kind == 'reg':
+                    self.problems.append('operand {}: a spelling that is not a key of the register table is not refused'.format(p))
+                # the bits in the word are bits of the ORIGINAL operand (bit_source guarantees it), so the adjustment that
+                # describes the encoded value is a function of the original value and the encoded window alone, whatever
+                # arithmetic the code used to get there
+                cells = merge_cells([Cell(c.lo, c.hi, 0, c.m, c.r) for c in pcells])
+                if src in top:
+                    cells, lossy = canonical_window(cells, top[src] + 1)
+                    if lossy:
+                        self.imprecise = True
+                shifts = [ev['shift'] for ev in self.masks if ev['src'] == src]
+                self.operands.setdefault(p, []).append({'kind': kind, 'src': src, 'cells': cells,
+                                                        'shift': min(shifts) if shifts else 0})
+        for ev in self.masks:
+            ev['top'] = top.get(ev['src'])
+            ev['cells'] = []
+            if state is not None:
+                ev['cells'] = merge_cells([Cell(c.lo, c.hi, c.d[ev['ch']], c.m, c.r)
+                                           for c in state.cells.get(ev['src'], []) if ev['ch'] in c.d])
 
     def const_mask_match(self, width):
         mask = match = 0
@@ -1070,32 +131,109 @@ class Summary:
             d['operands'][p] = [{'kind': i['kind'], 'accepted': [repr(c) for c in i['cells']], 'shift': i['shift']} for i in infos]
         fm = self.field_map()
         d['layout'] = {'{}:{}'.format(*src): {str(j): pos for j, pos in sorted(m.items())} for src, m in fm.items()}
+        if self.notes:
+            d['notes'] = self.notes
         return d
+
+
+def canonical_window(cells, K):
+    """Canonical description of an accepted set whose operand bits 0..K-1 reach the word: encoded value = orig + delta with
+    delta the multiple of 2**K that brings orig into the signed K-bit window when negative originals are accepted (a
+    two's-complement field: [2**(K-1), 2**K - 1] then are alias spellings of negative values), into the unsigned window
+    otherwise (x8..x15 -> 0..7).  No encoded bit can see a multiple of 2**K, and the description does not depend on how the
+    code got there: a guard admitting [-2**(K-1), 2**K - 1] followed by a K-bit mask, an alias window `x -= 2**K` followed
+    by the signed guard, and `x + 2**K if x < 0 else x` are the same function and get the same cells."""
+    if not cells or any(c.lo <= -INF or c.hi >= INF for c in cells):
+        return cells, False
+    P = 1 << K
+    half = (P >> 1) if min(c.lo for c in cells) < 0 else 0
+    out = []
+    lossy = False
+    for c in cells:
+        n_lo, n_hi = (c.lo + half) // P, (c.hi + half) // P
+        if n_hi - n_lo > 256:
+            out.append(c)
+            lossy = True
+            continue
+        for n in range(n_lo, n_hi + 1):
+            nc = Cell(max(c.lo, n * P - half), min(c.hi, n * P + P - half - 1), -n * P, c.m, c.r)
+            if nc.lo <= nc.hi:
+                out.append(nc)
+    return merge_cells(out), lossy
+
+
+def closure_value(interp, clo):
+    """facts.Closure (NAME = factory(args) at module level, or factory(args) written inline in cs=[...]) -> FuncValue"""
+    if clo.name != '<inline>' and interp.model.bind_count.get(clo.name):
+        v = interp.module_value(clo.name)
+    else:
+        fac = interp.facts.funcs.get(clo.factory)
+        if fac is None:
+            raise Unsupported('unknown closure factory {}'.format(clo.factory))
+        st = State()
+        v = interp.run_function(FuncValue(fac), [x for x in clo.args], {}, st)
+        if st.dead or st.cells:
+            raise Unsupported('closure factory {} does not simply return a function'.format(clo.factory))
+    if isinstance(v, Obj) and interp.find_member(v.cls.name, '__call__') is not None:
+        if v.frozen is None:
+            raise Unsupported('constraint object {} is not a module-level constant'.format(clo))
+        return v
+    if not isinstance(v, FuncValue):
+        raise Unsupported('constraint {} is not a function'.format(clo))
+    return v
 
 
 def summarise_binding(facts, mnemonic, binding_name=None):
     """Abstractly interpret the encoder bound to `mnemonic` under its partial constants."""
     part = facts.partials[binding_name] if binding_name else facts.binding(mnemonic)
-    fdef = facts.funcs.get(part.func)
-    if fdef is None:
-        raise AnalysisError('encoder {} of {} not found'.format(part.func, mnemonic))
     interp = Interp(facts)
-    interp.overlaps = []
     st = State()
-    pos = [a.arg for a in fdef.args.args]
-    open_params = [p for p in pos if p not in part.kwargs]
-    kwargs = dict(part.kwargs)
-    for p in open_params:
-        kwargs[p] = Param(p)
-    # optional keyword-only parameters (aq, rl) stay open operands as well
-    for a, d in zip(fdef.args.kwonlyargs, fdef.args.kw_defaults):
-        if a.arg not in kwargs and d is not None and a.arg != 'cs':
-            kwargs[a.arg] = Param(a.arg)
-            open_params.append(a.arg)
+    # partial(partial(f, a=1), b=2): the innermost function with the keywords of the whole chain (outer ones win)
+    chain = [part]
+    while chain[-1].func in facts.partials and chain[-1].func not in facts.funcs:
+        if len(chain) > 8:
+            raise AnalysisError('partial bindings of {} form a cycle'.format(mnemonic))
+        chain.append(facts.partials[chain[-1].func])
+    bound = {}
+    for p in reversed(chain):
+        bound.update(p.kwargs)
+    func_name = chain[-1].func
     try:
-        result = interp.run_function(fdef, [], kwargs, st)
+        fv = interp.module_value(func_name)
+    except Unsupported as e:
+        raise AnalysisError('encoder {} of {} not found: {}'.format(func_name, mnemonic, e))
+    if not isinstance(fv, FuncValue) or isinstance(fv.fdef, ast.Lambda):
+        raise AnalysisError('encoder {} of {} is not a function of the module'.format(func_name, mnemonic))
+    fdef = fv.fdef
+    pos = [a.arg for a in fdef.args.args]
+    open_params = [p for p in pos if p not in bound]
+    try:
+        kwargs = {}
+        for k, v in bound.items():
+            if isinstance(v, list) and v and all(isinstance(x, Closure) for x in v):
+                kwargs[k] = [closure_value(interp, x) for x in v]
+            elif isinstance(v, tuple):
+                kwargs[k] = list(v)
+            else:
+                kwargs[k] = v
+        for p in open_params:
+            kwargs[p] = Param(p)
+        # optional keyword-only parameters (aq, rl) stay open operands as well
+        for a, d in zip(fdef.args.kwonlyargs, fdef.args.kw_defaults):
+            if a.arg not in kwargs and d is not None and a.arg != 'cs':
+                kwargs[a.arg] = Param(a.arg)
+                open_params.append(a.arg)
+        result = interp.run_function(fv, [], kwargs, st)
+        dead = st.dead
+        if not dead:
+            if isinstance(result, (Param, View, ModVal, Maybe, Lin)):
+                result = interp.to_bits(result, st, fdef)
+            if not isinstance(result, (Bits, int)) or isinstance(result, bool):
+                raise Unsupported('{} returns {} instead of an instruction word'.format(func_name, type(result).__name__))
+        return Summary(mnemonic, func_name, open_params, None if dead else st, result if not dead else 0, interp)
     except Unsupported as e:
         raise AnalysisError('{} ({} via {}): construct outside the abstract domain: {}'.format(
-            mnemonic, part.name, part.func, e))
-    dead = getattr(st, 'dead', False)
-    return Summary(mnemonic, part.func, open_params, None if dead else st, result if not dead else 0, interp)
+            mnemonic, part.name, func_name, e))
+    except RecursionError:
+        raise AnalysisError('{} ({} via {}): construct outside the abstract domain: recursion too deep'.format(
+            mnemonic, part.name, func_name))
